@@ -75,7 +75,9 @@ def generate(seed, tier):
             m = LC.gen_mine(rng, latest_bias=0.55, max_txs=3)
             m.update({'op': 'relay', 'peer': peer, 'overlap': rng.random() < 0.2,
                       'clock': rng.choice([0, 0, -25, 5, 100]),
-                      'future': rng.choice([None] * 8 + [20, 28, 37, 45])})
+                      'future': rng.choice([None] * 8 + [20, 28, 37, 45]),
+                      # a valid block pushed as a "response" nobody asked for: to be treated like any unsolicited block
+                      'route': 'unrequested' if rng.random() < 0.1 else 'relay'})
             ops.append(m)
         elif x < 0.5:
             ops.append({'op': 'dup', 'n': rng.randrange(1000), 'peer': peer})
@@ -97,7 +99,7 @@ def generate(seed, tier):
         elif x < 0.96:
             ops.append({'op': 'submit_tx', 'spec': LC.gen_tx_spec(rng), 'peer': peer})
         else:
-            ops.append({'op': 'restart'})
+            ops.append({'op': 'restart', 'graceful': rng.random() < 0.5})
     return {'config': {'base': base, 'build': build, 'bots': rng.randint(2, 4),
                        'skew_ms': rng.choice([0, 0, 3000, -3000, 20000]),
                        'file_store': base == 'hlow_easy'}, 'ops': ops}
@@ -195,6 +197,8 @@ def execute(script):
                           'greeted_before': [id(x) for x in w.greeted_bot_conns()]})
             if route == 'bulk':
                 c.offer_block(block)            # announce, be asked, serve
+            elif route == 'unrequested':
+                c.send(M.DataMessage(M.DATA_BLOCK, block), in_response_to=7)
             else:
                 c.send(M.DataMessage(M.DATA_BLOCK, block))
             w.trace.add(w.k.now, 'send', label, bid)
@@ -333,7 +337,7 @@ def execute(script):
                     if id(c) not in cand['greeted_before'] or c.closed:
                         continue
                     delta = n - cand['counts_before'].get(key, 0)
-                    want = 1 if (cand.get('installed') and cand.get('became_head') and cand.get('route') != 'bulk') else 0
+                    want = 1 if (cand.get('installed') and cand.get('became_head') and cand.get('route') not in ('bulk', 'unrequested')) else 0
                     others = [x for x in batch if x is not cand and x['bid'] == bid]
                     if others:
                         continue    # same block twice in one batch: judged on the total below
@@ -346,7 +350,7 @@ def execute(script):
                 same = [c for c in batch if c['bid'] == bid]
                 if len(same) > 1:
                     after = w.count_block_messages(bid)
-                    want = 1 if any(c.get('installed') and c.get('became_head') and c.get('route') != 'bulk' for c in same) else 0
+                    want = 1 if any(c.get('installed') and c.get('became_head') and c.get('route') not in ('bulk', 'unrequested') for c in same) else 0
                     for key, (n, c) in after.items():
                         if id(c) not in same[0]['greeted_before'] or c.closed:
                             continue
@@ -392,7 +396,9 @@ def execute(script):
                     continue
                 if kind == 'relay':
                     send_block(blk, op.get('peer', 0), 'honest' if fut is None else 'dated clock%+d' % fut,
-                               'honest' if (fut is None or fut <= 30) else 'free')
+                               'honest' if (fut is None or fut <= 30) else 'free', route=op.get('route', 'relay'))
+                    if op.get('route') == 'unrequested':
+                        res.bump('probe:valid_block_pushed_as_unrequested_response')
                     batch[-1]['pool_before'] = pool_now
                     if not op.get('overlap'):
                         if not settle_and_check():
@@ -662,6 +668,15 @@ def execute(script):
                     continue
                 if unflushed:
                     model_drop(set(unflushed), 'probe:restart_lost_buffered_bulk_blocks')
+                if op.get('graceful'):
+                    # an orderly shutdown (LocalPeer.stop, what NetworkingThread.stop calls) instead of a kill: blocks that were
+                    # only buffered because nothing validated vouches for them yet must not reach the disk this way either
+                    w.k.current = node
+                    try:
+                        node.lp.stop()
+                    finally:
+                        w.k.current = None
+                    res.bump('probe:orderly_shutdown_before_restart')
                 node.crash()
                 res.bump('fault:restart')
                 bs.DefaultBlockStore.instance = bs.BlockStore(w.store_file)
